@@ -549,7 +549,7 @@ Proof.
   destruct (oltb ROps h _) eqn:C3; [discriminate|]. apply Rltb_false in C3.
   unfold two in C3. cbn in C1, C2, C3.
   intros H. injection H as <-.
-  set (D := @v2sub ROps (mkV2 r1 (h / two)%o) (mkV2 r0 (- h / two)%o)).
+  set (D := @v2sub ROps (mkV2 r1 (h / two)%o) (mkV2 r0 (- (h / two))%o)).
   assert (ED : vx D = r1 - r0 /\ vy D = h). { unfold D, v2sub, two. cbn. split; [reflexivity | field]. }
   destruct ED as [EDx EDy].
   set (u := v2normalize D).
